@@ -12,6 +12,7 @@ pub fn exec_oracle(kind: &str, fields: &[&str]) -> String {
         "S_C04" => oracle_c04(fields),
         "S_C07" => oracle_c07(fields),
         "S_C07M" => oracle_c07m(fields),
+        "S_C20" => oracle_c20(fields),
         "S_C19A" => oracle_c19a(fields),
         "S_C19D" => oracle_c19d(fields),
         "S_C19C" => oracle_c19c(fields),
@@ -1402,5 +1403,87 @@ fn oracle_c19c(fields: &[&str]) -> String {
     }
     let sc = c.scale(2.0);
     check!((0..4).all(|i| same(sc[i], c[i] * 2.0)), "scale");
+    "oracle pass".to_string()
+}
+
+// ----- C20: kp prints what the library computes ------------------------------------------------
+
+fn oracle_c20(fields: &[&str]) -> String {
+    let (rc, out) = crate::exec::run_kp(fields);
+    let opts: std::collections::BTreeMap<&str, &str> = fields[0].split(';').filter_map(|kv| kv.split_once('=')).collect();
+    let flag = |k: &str| opts.get(k).copied() == Some("1");
+    let optf = |k: &str| opts.get(k).filter(|v| **v != "-").map(|v| parse_f(v));
+    let optn = |k: &str| opts.get(k).filter(|v| **v != "-").and_then(|v| v.parse::<usize>().ok());
+    let op_def = unescape(fields[1]);
+    let nfiles: usize = fields[2].parse().unwrap_or(0);
+    let mut ctx = Plain::new();
+    let op = ctx.op(&op_def);
+    let unreadable = (0..nfiles).any(|i| fields[3 + i] == "UNREADABLE");
+    // invalid operations and unreadable files: non-zero status
+    if op.is_err() || unreadable {
+        return if rc != 0 { "oracle pass".to_string() } else { format!("oracle FAIL exit status 0 although {}", if op.is_err() { "the operation is invalid" } else { "a file is unreadable" }) };
+    }
+    let op = op.unwrap();
+    // the tuples of the input, in order
+    let mut tuples: Vec<Coor4D> = vec![];
+    let mut maxcols = 0usize;
+    for i in 0..nfiles {
+        let text = unescape(fields[3 + i]);
+        for line in text.lines() {
+            let mut words: Vec<&str> = line.split_whitespace().collect();
+            if let Some(p) = words.iter().position(|w| w.starts_with('#')) {
+                words.truncate(p);
+            }
+            if words.is_empty() {
+                continue;
+            }
+            maxcols = maxcols.max(words.len());
+            let v = |k: usize, default: f64| words.get(k).map(|w| angular::parse_sexagesimal(w)).unwrap_or(default);
+            let z = optf("z").unwrap_or(v(2, 0.0));
+            let t = optf("t").unwrap_or(v(3, f64::NAN));
+            tuples.push(Coor4D([v(0, 0.0), v(1, 0.0), z, t]));
+        }
+    }
+    // the statement covers requested decimals and dimension; otherwise only count the lines
+    let lines: Vec<&str> = out.lines().collect();
+    if rc != 0 {
+        // a legitimate error exit: roundtrip with differing success counts
+        if flag("rt") {
+            return "oracle skip roundtrip count mismatch".to_string();
+        }
+        return format!("oracle FAIL non-zero exit status on valid input ({} tuples)", tuples.len());
+    }
+    if lines.len() != tuples.len() {
+        return format!("oracle FAIL {} output lines for {} coordinate lines", lines.len(), tuples.len());
+    }
+    let (Some(dec), Some(dim)) = (optn("d"), optn("D")) else {
+        return "oracle pass line-count-only".to_string();
+    };
+    // what the library computes for the whole input as one set
+    let mut data = tuples.clone();
+    let dir1 = if flag("inv") { Inv } else { Fwd };
+    let n1 = ctx.apply(op, dir1, &mut data).unwrap_or(0);
+    if flag("rt") {
+        let dir2 = if flag("inv") { Fwd } else { Inv };
+        let n2 = ctx.apply(op, dir2, &mut data).unwrap_or(0);
+        if n1 != n2 || n1 != tuples.len() {
+            return "oracle skip roundtrip with failing tuples".to_string();
+        }
+        for (d, o) in data.iter_mut().zip(tuples.iter()) {
+            *d = *d - *o;
+        }
+    }
+    for (k, (line, c)) in lines.iter().zip(data.iter()).enumerate() {
+        let ncol = match dim {
+            1 => 1,
+            2 => 2,
+            3 => 3,
+            _ => 4,
+        };
+        let want: String = (0..ncol).map(|i| format!("{:.*} ", dec, c[i])).collect();
+        if *line != want {
+            return format!("oracle FAIL line {k}: kp prints {:?} but the library computes {:?}", line, want);
+        }
+    }
     "oracle pass".to_string()
 }
